@@ -47,7 +47,7 @@ func (s DefaultGridSampler) SampleGridWithTransform(image *gozxing.BitMatrix,
 			px := int(points[x])
 			py := int(points[x+1])
 
-			if px >= image.GetWidth() || py >= image.GetHeight() {
+			if px < 0 || py < 0 || px >= image.GetWidth() || py >= image.GetHeight() {
 				// cause of ArrayIndexOutOfBoundsException in image.Get(px, py)
 
 				// This feels wrong, but, sometimes if the finder patterns are misidentified, the resulting
